@@ -133,3 +133,14 @@ ALIASBLOCK
     return out
 UNITS.extend(_mul_i('ui'))
 UNITS.extend(_mul_i('si'))
+
+# ------------------------------------------------------------------ mpz_addmul / mpz_submul (_ui) and mpz_mul: bounded native stand-in (labelled bounded, never counted as proof)
+UNITS.append(dict(
+    name='mpz_aorsmul_enum', kind='native', props=['C01', 'C05'], source='mpz/aorsmul_i.c', more_sources=['mpz/aorsmul.c', 'mpz/mul.c'], driver='replay/smallops_enum.c', args=['aorsmul'],
+    bounded='BOUNDED (not proof): complete enumeration of mpz_addmul_ui / mpz_submul_ui (w, x over operands of 0..3 limbs over the limb alphabet {0, 1, 5, 2^63, 2^64-5, 2^64-1}, both signs: 431 values; '
+            'y over the alphabet), mpz_addmul / mpz_submul (same w, x; y over 20 values of 0..2 limbs; alias modes distinct / w == x / w == y / x == y) and mpz_mul (every ordered pair; alias modes distinct / r == x / r == y / '
+            'x == y / all equal; destination of one limb or of six): 10.3 million calls',
+    desc='[C01][C05] the two\'s-complement limb string of the result equals w +- x*y (resp. x*y) computed by schoolbook arithmetic modulo 2^512 written in the driver; the result is normalised; input-only operands are unchanged - over the whole enumerated space',
+    assumptions=['bounded stand-in: mpz_aorsmul_1 (the body of mpz_addmul_ui / mpz_submul_ui) has no proof unit (its submul branch negates in place through mpn_not + MPN_INCR_U and a second multiply pass); '
+                 'the all-distinct partition of mpz_mul is undecided as a proof (DESIGN 11.3) and is covered here only over this operand space'],
+    timeout=300, selftest=[]))
